@@ -58,7 +58,7 @@ def last_operator_of(parent):
     return parent.last_spine_operator_node
 
 
-@contract(IMP + 'run', props=['C02', 'C07', 'C12'], name='run_cell_step')
+@contract(IMP + 'run', props=['C02', 'C07', 'C08', 'C12'], name='run_cell_step')
 class run_cell_step:
     step = 'for icolumn, column in enumerate(row)'
     assumes = (A_STUBS,)
@@ -104,6 +104,16 @@ class run_cell_step:
             return conj(type(node.token).__name__ == 'ErrorToken', node.token.encoding == column, node.token.line == self._row_number,
                         self.errors == errors_before + [node.token])
         return conj(node.token is imported, self.errors == errors_before)
+
+    def post_signatures_in_force(self, node, parent, outcome, column):
+        # C08's bookkeeping: the node gets its own copy of the signatures in force above it (here: none); a signature token becomes
+        # the signature in force of its class for its own node (and, by the copy, for the cells below it)
+        sig = node.last_signature_nodes
+        own = conj(not column.startswith('!'), outcome == 'ClefToken')
+        if own:
+            return conj(sig is not parent.last_signature_nodes, len(sig.nodes) == 1, sig.nodes['ClefToken'] is node,
+                        len(parent.last_signature_nodes.nodes) == 0)
+        return conj(sig is not parent.last_signature_nodes, len(sig.nodes) == 0)
 
     def post_measure_start_flag(self, node, is_barline, was_barline):
         c = node.token.category
